@@ -82,7 +82,8 @@ theorem Tx_connTlsStart (h : Tx c) : Tx (connTlsStart c).1 := by
   unfold connTlsStart; ctrav
 theorem Tx_connOpenStream (h : Tx c) : Tx (connOpenStream c) := by
   unfold connOpenStream; ctrav; txside
-theorem Tx_negotiationSuccess (h : Tx c) : Tx (negotiationSuccess c) := by cauto negotiationSuccess
+theorem Tx_negotiationSuccess (h : Tx c) : Tx (negotiationSuccess c) := by
+  unfold negotiationSuccess; dsimp only; ctrav; txside
 theorem Tx_authLegacyStep (h : Tx c) : Tx (authLegacyStep c) := by
   unfold authLegacyStep; ctrav; txside
 
@@ -253,6 +254,7 @@ theorem Tx_step (op : Op) (h : Tx c)
   | setSched l d => exact h
   | tick ms => exact h
   | setSmCallback => exact h
+  | setSendOnConnect on => exact h
   | setFlags f => exact Tx_setFlags h
   | usend it => exact Tx_sendStanza h (good_user hu _)
   | uraw it => exact Tx_sendRaw h (good_user hu _)
